@@ -621,6 +621,9 @@ impl<T: Storage> RaftLog<T> {
         while lo < hi {
             let ents = self.slice(lo, hi, page_size, context)?;
             if ents.is_empty() {
+                #[cfg(tikv_raft_rs_verif)]
+                panic!("got 0 entries in [{lo}, {hi})");
+                #[cfg(not(tikv_raft_rs_verif))]
                 return Err(Error::Store(StorageError::Other(
                     format!("got 0 entries in [{lo}, {hi})").into(),
                 )));
